@@ -764,7 +764,7 @@ def check_c09(tier, seed):
     prop = 'C09'
     build_harness()
     quick = tier == 'quick'
-    mcs = [(2, 2, 10)] if quick else [(2, 2, 12), (3, 1, 10), (2, 3, 12), (3, 2, 9)]
+    mcs = [(2, 2, 8)] if quick else [(2, 2, 12), (2, 3, 12), (3, 1, 8)]
     states = trans = 0
     mc_runs = []
     for n, mx, mt in mcs:
